@@ -119,6 +119,21 @@ def add_mat_scalar_ops(u, ms):
                 {'neg': C(ensures=eq_all(ms, 'res', A.map(lambda x: -x)))})
     Mm = SM.of(ms, 'm')
     u.take(P, 'impl<T>%s<T>' % N, 'mul_memberwise', C(ensures=eq_all(ms, 'res', A.zip(Mm, lambda a, b: a * b))))
+    # compound assignment: final(self) == old(self) op rhs
+    Ao = SM.of(ms, 'old(self)')
+    u.take_impl(P, 'impl<T> MulAssign for %s<T> where T: Copy + Zero + Add<Output = T> + Mul<Output = T> + MulAdd<T, T, Output = T>' % N,
+                {'mul_assign': C(ret=None, ensures=eq_all(ms, 'final(self)', Ao @ B))})
+    u.take_impl(P, 'impl<T> MulAssign<T> for %s<T> where T: Copy + Zero + Add<Output = T> + Mul<Output = T>' % N,
+                {'mul_assign': C(ret=None, ensures=eq_all(ms, 'final(self)', Ao.map(lambda x: x * k)))})
+    for tr, m, f in (('Add', 'add', lambda a, b: a + b), ('Sub', 'sub', lambda a, b: a - b), ('Div', 'div', lambda a, b: a / b)):
+        u.take_impl(P, 'impl<T: %s<Output = T> + Copy> %sAssign for %s<T>' % (tr, tr, N),
+                    {m + '_assign': C(ret=None, ensures=eq_all(ms, 'final(self)', Ao.zip(B, f)))})
+        u.take_impl(P, 'impl<T: %s<Output = T> + Copy> %sAssign<T> for %s<T>' % (tr, tr, N),
+                    {m + '_assign': C(ret=None, ensures=eq_all(ms, 'final(self)', Ao.map(lambda x: f(x, k))))})
+    n = ms.n
+    one_h = 'impl<T: Zero + One + Copy + MulAdd<T, T, Output = T>> One for %s<T>' % N
+    u.impl_extra[(P, norm(one_h))] = 'open spec fn one_spec() -> Self { %s }' % mlit(ms, N, lambda i, j: 'rr(%dreal)' % (1 if i == j else 0))
+    u.take_impl(P, one_h, {'one': C(ensures=['%s.v@ == %dreal' % (ms.at('res', i, j), 1 if i == j else 0) for i in range(n) for j in range(n)])})
 
 
 # ------------------------------------------------------------------ C03: element (i,j) everywhere
@@ -377,3 +392,62 @@ def add_determinant_any(u, ms):
     u.take(ms.path, 'impl<T>Mat4<T>', 'determinant', C(
         ensures=['res.v@ == ' + X.verus(A.det())],
         prologue='proof { crate::lemma_det4_shape(%s); }' % lemma_args(A)))
+
+
+# ------------------------------------------------------------------ C06: rigid / affine fast inverses
+def affine_last_row(ms, m):
+    return ' && '.join('%s.v@ == %dreal' % (ms.at(m, 3, j), 1 if j == 3 else 0) for j in range(4))
+
+
+def rigid_inverse_spec(A):
+    """[R^T | -R^T t ; 0 0 0 1] for A = [R | t ; 0 0 0 1]"""
+    e = [[None] * 4 for _ in range(4)]
+    for i in range(3):
+        for j in range(3):
+            e[i][j] = A[j, i]
+        e[i][3] = -X.sum_([A[k, i] * A[k, 3] for k in range(3)])
+    for j in range(4):
+        e[3][j] = X.const(1 if j == 3 else 0)
+    return SM(e)
+
+
+def affine_inverse_spec(A, S):
+    """row i of R^T divided by S_i (the squared length of column i, or 1 when negligible)"""
+    e = [[None] * 4 for _ in range(4)]
+    for i in range(3):
+        for j in range(3):
+            e[i][j] = A[j, i] / S[i]
+        e[i][3] = -X.sum_([(A[k, i] / S[i]) * A[k, 3] for k in range(3)])
+    for j in range(4):
+        e[3][j] = X.const(1 if j == 3 else 0)
+    return SM(e)
+
+
+CLOSURE_EPS = ('|x| if x.abs() > epsilon { x } else { R::one() }',
+               '|x: R| -> (r: R) ensures r.v@ == (if abs_r(x.v@) > epsilon.v@ { x.v@ } else { 1real }) { if x.abs() > epsilon { x } else { R::one() } }')
+
+
+def add_affine_inverses(u, ms):
+    P, N = ms.path, ms.name
+    gh = 'impl<T>Mat4<T>'
+    V4 = VEC['Vec4']
+    u.take(V4.path, 'impl<T>Vec4<T>', 'unit_w', C(ensures=['res.x.v@ == 0real', 'res.y.v@ == 0real', 'res.z.v@ == 0real', 'res.w.v@ == 1real']))
+    u.take(V4.path, 'impl<T>Vec4<T>', 'map', C(requires=['forall|x: T| call_requires(f, (x,))'],
+                                               ensures=['call_ensures(f, (self.%s,), res.%s)' % (x, x) for x in V4.fields]), mode='G')
+    A = SM.of(ms, 'self')
+    aff = affine_last_row(ms, 'self')
+    pro = 'proof { crate::vec::lemma_sm_new_all(); }'
+    u.take(P, gh, 'inverted_affine_transform_no_scale', C(
+        ensures=['(%s) ==> %s' % (aff, e) for e in eq_all(ms, 'res', rigid_inverse_spec(A))], prologue=pro))
+    Ao = SM.of(ms, 'old(self)')
+    u.take(P, gh, 'invert_affine_transform_no_scale', C(
+        ret=None, ensures=['(%s) ==> %s' % (affine_last_row(ms, 'old(self)'), e) for e in eq_all(ms, 'final(self)', rigid_inverse_spec(Ao))]))
+    sv = [X.var('s%d' % i, verus='s%d' % i) for i in range(3)]
+    lets = ' '.join('let c%d = %s; let s%d = if abs_r(c%d) > eps_r() { c%d } else { 1real };'
+                    % (i, X.verus(X.sum_([A[k, i] * A[k, i] for k in range(3)])), i, i, i) for i in range(3))
+    spec = affine_inverse_spec(A, sv)
+    ens = ['({ %s (%s) ==> %s })' % (lets, aff, e) for e in eq_all(ms, 'res', spec)]
+    u.take(P, gh, 'inverted_affine_transform', C(ensures=ens, prologue='proof { crate::vec::lemma_sm_new_all(); axiom_eps(); }',
+                                                 body_subst=[CLOSURE_EPS]))
+    u.take(P, gh, 'invert', C(ret=None, ensures=['%s != 0real ==> %s' % (X.verus(Ao.det()), e) for e in
+                                                eq_all(ms, 'final(self)', inv_spec(Ao))]))
